@@ -9,7 +9,7 @@ import typing as t
 
 from .facts import AnalysisError
 from .sym import Engine
-from .terms import is_const, show, subterms
+from .terms import const, is_const, show, subterms
 
 WIDTH = {"B": 1, "b": 1, "H": 2, "h": 2, "I": 4, "i": 4, "L": 4, "l": 4, "Q": 8, "q": 8, "x": 1, "s": 1, "c": 1, "?": 1}
 UNSIGNED = set("BHILQ")
@@ -89,6 +89,14 @@ def unpack_call(eng: Engine, tm) -> t.Optional[t.Tuple[Fmt, tuple]]:
     if f[0] == "attr" and f[2] in ("unpack", "unpack_from") and tm[2]:
         fm = struct_fmt(eng, f[1])
         if fm is not None:
+            if f[2] == "unpack_from":
+                # S.unpack_from(buf, off) reads exactly what S.unpack(buf[off : off + S.size]) reads (and fails when that
+                # slice is short): every consumer sees the slice form
+                off = tm[2][1] if len(tm[2]) > 1 else dict(tm[3] or ()).get("offset")
+                if off is None or off == const(0):
+                    return fm, ("slice", tm[2][0], None, const(fm.size))
+                from .terms import fold_binop
+                return fm, ("slice", tm[2][0], off, fold_binop("+", off, const(fm.size)))
             return fm, tm[2][0]
     if f in (("ext", "struct.unpack"), ("ext", "struct.unpack_from")) and len(tm[2]) >= 2 and is_const(tm[2][0]) and isinstance(tm[2][0][1], str):
         return Fmt(tm[2][0][1]), tm[2][1]
